@@ -131,7 +131,7 @@ def handle (t : TS) (line : String) : TS × String :=
   | cmd :: rest =>
     let a := parseArgs rest
     if cmd == "new" then
-      let t' : TS := TreeState.init ((natArg a "levels").getD 7)
+      let t' : TS := TreeState.init ((natArg a "levels").getD 7) (natArg a "blob")
       (t', stateReply t')
     else if treeCmds.contains cmd then
       match stepTree t cmd a with
